@@ -332,29 +332,6 @@ def denKey (ct : ClassTable) : List (KeyKind × Spec × Spec) → Nat → V → 
     | .fault c => (.stop (.fault c), kr.2)
 end
 
-/- spec trees in which every plain dict key that `_precedence` ranks 0 is an equality key -/
-mutual
-def keysOK : Spec → Bool
-  | .and cs _ | .or cs _ | .list cs | .set cs | .fset cs | .tuple cs => keysOKL cs
-  | .not c | .matchS c _ => keysOK c
-  | .switch cases _ => keysOKC cases
-  | .dict es => keysOKD es
-  | _ => true
-def keysOKL : List Spec → Bool
-  | [] => true
-  | s :: ss => keysOK s && keysOKL ss
-def keysOKC : List (Spec × Spec) → Bool
-  | [] => true
-  | (k, v) :: r => keysOK k && keysOK v && keysOKC r
-def keysOKD : List (KeyKind × Spec × Spec) → Bool
-  | [] => true
-  | (kind, k, v) :: r =>
-    (match kind with
-     | .plain => precedence k != 0 || isEqKey k
-     | _ => true) && keysOK k && keysOK v && keysOKD r
-end
-
-
 /-! ### the boolean reading (two-valued; for targets on which nothing faults) -/
 
 def passes (ct : ClassTable) (s : Spec) (t : V) : Bool :=
